@@ -2,6 +2,7 @@ package c10
 
 import (
 	"context"
+	"crypto/hmac"
 	"crypto/sha256"
 	"encoding/json"
 	"fmt"
@@ -28,9 +29,11 @@ const deadline = 4 * time.Second
 var members = []uint16{1, 2, 3}
 
 const (
-	outsider = 4  // configured, does not take part
+	outsider = 4  // configured, does not take part (5 and 6 are two more of the kind)
 	unknown  = 77 // not configured
 )
+
+var allNodes = []uint16{1, 2, 3, outsider, 5, 6}
 
 // ---------------------------------------------------------------------------------------------
 // (A) dispatcher level, on live sessions
@@ -43,7 +46,7 @@ type sess struct {
 func (s sess) String() string { return s.Mode + "/" + s.Backend }
 
 func stack(s sess) *scen.Stack {
-	st := &scen.Stack{Mode: s.Mode, Threshold: 2, Membership: scen.Identity([]uint16{1, 2, 3, outsider})}
+	st := &scen.Stack{Mode: s.Mode, Threshold: 2, Membership: scen.Identity(allNodes)}
 	switch s.Backend {
 	case "ps":
 		st.KGF, st.SF = psb.KeyGenFactory(1), psb.SignerFactory(1)
@@ -60,9 +63,9 @@ func honest(c *harness.C, s sess) (map[string]*world.Packet, int) {
 	reps := map[string]*world.Packet{}
 	steps := 0
 	rec := c.Bubble(func() {
-		w := world.New([]uint16{1, 2, 3, outsider})
+		w := world.New(allNodes)
 		st := stack(s)
-		for _, id := range []uint16{1, 2, 3, outsider} {
+		for _, id := range allNodes {
 			st.Build(w, id)
 		}
 		w.OnDeliver = func(p *world.Packet) {
@@ -143,6 +146,30 @@ func injections(rep *world.Packet, kind string, source uint16, seed int64, quick
 				}
 			}
 		}
+	case "own-tag":
+		// well-formed synchroniser messages that carry the tag of the node that really sends them
+		// (a configured member that does not take part, or a participant): every message type, the
+		// original view and some others, each sent once and repeatedly
+		if rep.Type != 1 || len(rep.Data) < 33 {
+			return nil
+		}
+		srcs := []uint16{source}
+		if source == outsider {
+			srcs = []uint16{outsider, 5, 6} // every configured member that does not take part
+		}
+		views := [][]byte{rep.Data[33:], nil, {1, 0, 2, 0, 3, 0, 4, 0}, {1, 0, 2, 0}}
+		for mt := byte(1); mt <= 3; mt++ {
+			for vi, v := range views {
+				for _, src := range srcs {
+					h := hmac.New(sha256.New, rep.Topic)
+					h.Write([]byte{byte(src), byte(src >> 8)})
+					d := append(append([]byte{mt}, h.Sum(nil)...), v...)
+					for rep2 := 0; rep2 < 2; rep2++ {
+						out = append(out, inj{fmt.Sprintf("own-tag type %d view#%d from %d copy %d", mt, vi, src, rep2), rep.Type, rep.Topic, d, src})
+					}
+				}
+			}
+		}
 	case "topic":
 		for i, t := range topicVariants(rep.Topic) {
 			mk(fmt.Sprintf("topic variant %d (len %d)", i, len(t)), rep.Type, t, rep.Data)
@@ -158,12 +185,12 @@ func injections(rep *world.Packet, kind string, source uint16, seed int64, quick
 	return out
 }
 
-var kinds = []string{"truncate", "extend", "substitute", "asn1-remove", "asn1-duplicate", "topic", "msgtype"}
+var kinds = []string{"truncate", "extend", "substitute", "asn1-remove", "asn1-duplicate", "topic", "msgtype", "own-tag"}
 
 // sessionRun brings a session to the given step, fires the injections at party 1, finishes.
 func sessionRun(c *harness.C, s sess, stateStep int, injs []inj) (returned, succeeded int) {
 	rec := c.Bubble(func() {
-		all := []uint16{1, 2, 3, outsider}
+		all := allNodes
 		w := world.New(all)
 		st := stack(s)
 		for _, id := range all {
@@ -231,7 +258,10 @@ func sessionCase(s sess, state int, stateName string, source uint16, srcName, cl
 		if ret != len(members) {
 			c.Violation("no-hang", fmt.Sprintf("c10-session-hangs:%s/%s/%s/%s", s, class, kind, srcName), fmt.Sprintf("%s: after %d %s inputs of class %s from %s in state %s only %d of %d KeyGen calls returned by the deadline", s, len(injs), kind, class, srcName, stateName, ret, len(members)), rp)
 		}
-		if srcName != "participant" && ok != len(members) {
+		// (a configured member that announces itself with its own valid tag is a candidate participant:
+		// the synchroniser then legitimately reports too many members, so for kind own-tag only
+		// "no crash, no hang" is demanded)
+		if srcName != "participant" && kind != "own-tag" && ok != len(members) {
 			c.Violation("service-continues", fmt.Sprintf("c10-session-disturbed:%s/%s/%s/%s", s, class, kind, srcName), fmt.Sprintf("%s: %d %s inputs of class %s from %s (not a participant) in state %s made the honest session fail (%d of %d succeeded)", s, len(injs), kind, class, srcName, stateName, ok, len(members)), rp)
 		}
 		c.Outcome(id)
@@ -518,9 +548,9 @@ func gen(c *harness.C) []harness.Case {
 		}
 	}
 	var cases []harness.Case
-	sessions := []sess{{"loud", "bls"}, {"silent", "bls"}}
+	sessions := []sess{{"loud", "bls"}, {"silent", "bls"}, {"loud", "ps"}}
 	if c.Thorough() {
-		sessions = append(sessions, sess{"loud", "ps"}, sess{"silent", "ps"})
+		sessions = append(sessions, sess{"silent", "ps"})
 	}
 	classes := []string{"t1/s1", "t1/s2", "t1/s3", "t2/m1", "t2/m2", "t2/m3", "t2/ack"}
 	srcs := []struct {
